@@ -5,6 +5,7 @@ use super::bb_c06::*;
 use super::bb_c10::*;
 use super::bb_c11w::*;
 use super::bb_c12::*;
+use super::bb_c16::*;
 use super::bb_c18::*;
 use super::bb_config::*;
 use super::bb_graph::*;
@@ -247,6 +248,22 @@ fn bb_replays(ctx: &Ctx, report: &mut Report) -> u64 {
         }
         if r["engine"] == "BB-c11w" {
             match replay_c11w(r) {
+                Ok(res) => {
+                    n += 1;
+                    if let Some(msg) = res.violation {
+                        println!("  replay {} still fails: {}", path.display(), msg);
+                        report.fail(Failure {
+                            message: msg,
+                            signature: res.signature.unwrap_or_default(),
+                            replay: res.replay,
+                        });
+                    }
+                }
+                Err(e) => report.infra_errors.push(e),
+            }
+        }
+        if r["engine"] == "BB-c16" {
+            match replay_c16b(r) {
                 Ok(res) => {
                     n += 1;
                     if let Some(msg) = res.violation {
@@ -1072,6 +1089,23 @@ fn c16(ctx: &Ctx) -> i32 {
             stream: 116,
         };
         let (part, failures) = run_prop(&pr, c16_case, eval_c16);
+        report.add(part);
+        for f in failures {
+            report.fail(f);
+        }
+    }
+    bb_replays(ctx, &mut report);
+    if ctx.replay.is_none() {
+        let pr = PropRun {
+            ctx,
+            engine: "BB",
+            rule: "real binary with --watch on a fresh tree (no .zinoma yet): a service whose input is the whole project directory (with / without an extension filter) plus one or two build targets; 0-5 atomic changes (input file, root-level file, a file under .zinoma, an editor temporary, another extension) with quiescence in between; the number of service starts and script starts must equal 1 + the number of relevant changes for each target - zinoma's own first state writes (creation of .zinoma and of the records) must trigger nothing",
+            total_cases: ctx.tier.pick(24, 300),
+            threads: 6.min(ctx.threads),
+            max_shrink_iters: 20,
+            stream: 216,
+        };
+        let (part, failures) = run_prop(&pr, c16b_case, eval_c16b);
         report.add(part);
         for f in failures {
             report.fail(f);
